@@ -4,6 +4,14 @@ import random
 import vf
 
 
+def par(jobs, width=6):
+    """Run independent TLC jobs side by side (each is its own JVM in its own scratch dir); results in order."""
+    from concurrent.futures import ThreadPoolExecutor
+    with ThreadPoolExecutor(max_workers=width) as ex:
+        futs = [ex.submit(j) for j in jobs]
+        return [f.result() for f in futs]
+
+
 def gen(ctx, cfg, res, simulate=None, limit=None, timeout=900, equiv="none"):
     r = ctx.tlc("ConcMC", cfg, workers=1 if simulate else min(vf.NCPU, 8), timeout=timeout,
                 simulate=simulate, extra=["-depth", "80"] if simulate else None)
@@ -40,10 +48,32 @@ def attacks(ctx, cfg, res, key, limit, simulate=None, equiv="none"):
 def run_and_check(ctx, prop, cases, label):
     for n, c in enumerate(cases):
         c["n"] = n + 1
-    cpath = ctx.write_ndjson("cases-%s.ndjson" % label, cases)
-    opath = ctx.path("obs-%s.ndjson" % label)
-    ctx.run_harness(["-cases", cpath, "-out", opath], cmd="conc", timeout=3000)
-    obs = ctx.read_ndjson(opath)
+    # the runs are independent: several harness processes side by side (forced schedules mostly wait on gates)
+    import subprocess
+    parts = 4 if len(cases) >= 200 else 1
+    binary = ctx.harness(cmd="conc")
+    procs, outs = [], []
+    for i in range(parts):
+        cp = ctx.write_ndjson("cases-%s-%d.ndjson" % (label, i), cases[i::parts])
+        op = ctx.path("obs-%s-%d.ndjson" % (label, i))
+        outs.append(op)
+        env = dict(vf.GOENV, VERIF_SEED=str(ctx.seed), VERIF_TIER=ctx.tier, VERIF_CURRENT=ctx.path("current-%s-%d.json" % (label, i)))
+        procs.append(subprocess.Popen([binary, "-cases", cp, "-out", op], cwd=ctx.scratch, env=env,
+                                      stdout=subprocess.PIPE, stderr=subprocess.STDOUT, text=True))
+    for p in procs:
+        try:
+            out, _ = p.communicate(timeout=3000)
+        except subprocess.TimeoutExpired:
+            for q in procs:
+                q.kill()
+            raise vf.Inconclusive("conc harness timed out on " + label)
+        if p.returncode != 0:
+            raise vf.Inconclusive("conc harness failed rc=%d on %s:\n%s" % (p.returncode, label, out[-3000:]))
+    obs = []
+    for op in outs:
+        obs += ctx.read_ndjson(op)
+    obs.sort(key=lambda o: o["n"])
+    opath = ctx.write_ndjson("obs-%s.ndjson" % label, obs)
     if not obs:
         raise vf.Inconclusive("conc harness produced nothing for " + label)
     problems = [o for o in obs if o["problem"]]
